@@ -115,12 +115,15 @@ Lemma G_delta_kernel : forall k : kde, kde_ok_delta k -> k_kernel k = KDelta ->
   (forall m lo hi x : Q, k_b k = BLower m -> pairs_within lo hi (kde_ps k) -> m <= lo ->
      exists c : Q, kde_cdf k x = Some (XFin c) /\ (x <= m -> c == 0) /\ (m < x -> c == wecdf (kde_ps k) x)) /\
   (forall M lo hi x : Q, k_b k = BUpper M -> pairs_within lo hi (kde_ps k) -> hi <= M ->
-     exists c : Q, kde_cdf k x = Some (XFin c) /\ (M <= x -> c == 1) /\ (x < M -> c == wecdf (kde_ps k) x)).
+     exists c : Q, kde_cdf k x = Some (XFin c) /\ (M <= x -> c == 1) /\ (x < M -> c == wecdf (kde_ps k) x)) /\
+  (forall m M x : Q, k_b k = BBoth m M -> pairs_within m M (kde_ps k) -> m < M -> m <= x /\ x < M ->
+     exists c : Q, kde_cdf k x = Some (XFin c) /\ (x == m -> c == 0) /\ (m < x -> c == wecdf (kde_ps k) x)).
 Proof.
-  intros k ok kern. split; [|split].
+  intros k ok kern. split; [|split; [|split]].
   - intros B x. split; [apply delta_cdf_is_weighted_ecdf; assumption | apply delta_pdf_unbounded; assumption].
   - intros m lo hi x. apply delta_cdf_lower; assumption.
   - intros M lo hi x. apply delta_cdf_upper; assumption.
+  - intros m M x B Hin mM X. apply (delta_cdf_both k ok kern m M B Hin mM x X).
 Qed.
 
 (* the bandwidth rules as 10th powers *)
